@@ -430,7 +430,8 @@ def c14(ctx):
                         "a connection holding a channel subscription and a matching pattern is served once per subscription"]
     rule = ("operation paths exported by TLC from PubSub.tla (one per distinct subscription state with <= %d operations over 3 connections on 2 members, "
             "channels {a,ab,b}, patterns {a*,*}, including disconnects and re-connects; plus every path of length <= %d) each followed by PUBLISH on every channel and PUBSUB CHANNELS/NUMSUB/NUMPAT; "
-            "seeded random programs with duplicate subscriptions, unsubscribe-all and disconnects; rounds with two concurrent publishers; "
+            "seeded random programs with duplicate subscriptions, unsubscribe-all and disconnects; rounds with two concurrent publishers; a sample of the same programs "
+            "through the Go client API (PubSub of an embedded and of a cluster client: Subscribe, PSubscribe, Publish, PubSubChannels, PubSubNumSub, PubSubNumPat); "
             "non-trivial = some publish had >= 1 delivery while >= 1 live subscription did not match") % ((4, 2) if quick else (5, 3))
     ra = vlib.design_check(ctx, "PubSubMC", "PubSub.cfg", consts={"MaxOps": 4 if quick else 5, "Export": "TRUE"}, name="design-states")
     behs = set(vlib.behaviours(ra))
@@ -453,6 +454,18 @@ def c14(ctx):
     tr = os.path.join(out, "ps.ndjson")
     accepted, failures = vlib.validate_chunks(ctx, "PubSubTrace", "PubSubTrace.cfg", tr, consts={}, name="ps")
     ctx.traces = accepted
+    # the same programs (a sample of the exported ones + random ones) through the Go client API: PubSub objects of an
+    # embedded and of a cluster client
+    rc, o = vlib.go_test(ctx, "ps", "TestPubSubAPI", env={"VERIF_OUT": out, "VERIF_BEH": behfile, "VERIF_PSAPI_EVERY": 9 if quick else 2,
+                                                           "VERIF_PSAPI_RANDOM": 10 if quick else 200}, timeout=1500)
+    if crash_or_fail(ctx, rc, o, "driving pub/sub through the client API"):
+        return vlib.finish(ctx, {"evaluations": 0, "distinct_nontrivial": 0, "rule": rule, "samples": ["crash"]})
+    summ_api = json.load(open(os.path.join(out, "psapi.summary.json")))
+    acc2, fail2 = vlib.validate_chunks(ctx, "PubSubTrace", "PubSubTrace.cfg", os.path.join(out, "psapi.ndjson"), consts={}, name="psapi")
+    ctx.traces += acc2
+    failures = list(failures) + list(fail2)
+    summ["evaluations"] += summ_api["evaluations"]
+    summ["programs"] += summ_api["programs"]
     for seq_lines, line, msg in failures:
         head = json.loads(seq_lines[0])
         evs = [json.loads(l) for l in seq_lines[1:line]]
@@ -655,7 +668,16 @@ def ledger_tags(head, evs, line, msg):
     for x in evs[:-1]:
         if x.get("t") == "op" and x.get("k") == k:
             last = x
-    return {"msg": msg.split(" (")[0], "phase": e.get("phase", ""), "last_op": (last or {}).get("op", ""), "last_op_phase": (last or {}).get("phase", "")}
+    # did the members that survived the last crash hold any copy of the key right after it?
+    surv = None
+    written_since = False
+    for x in evs[:-1]:
+        if x.get("t") == "survivors" and x.get("k") == k:
+            surv, written_since = x.get("n"), False
+        elif x.get("t") == "op" and x.get("k") == k and x.get("ret") == "ok":
+            written_since = True
+    return {"msg": msg.split(" (")[0], "phase": e.get("phase", ""), "last_op": (last or {}).get("op", ""), "last_op_phase": (last or {}).get("phase", ""),
+            "all_copies_were_on_the_crashed_member": surv == 0 and not written_since}
 
 
 def ledger_run(ctx, test, tracefile, summary, env, design, rule, what):
@@ -676,7 +698,7 @@ def ledger_run(ctx, test, tracefile, summary, env, design, rule, what):
         tags = ledger_tags(head, evs, line, msg)
         steps = [x.get("what") for x in evs if x.get("t") == "step"]
         key = (evs[-1] if evs else {}).get("k")
-        hist = [x for x in evs if x.get("k") == key and x.get("t") in ("op", "forget", "copies", "read")][-40:]
+        hist = [x for x in evs if x.get("k") == key and x.get("t") in ("op", "forget", "copies", "read", "survivors")][-40:]
         vlib.report_failure(ctx, "%s: %s [%s; steps %s]" % (what, msg, head.get("cfg"), steps[-6:]), tags,
                             {"reset": head, "steps": steps, "key_history": hist, "failing_event": evs[-1] if evs else {},
                              "trace": [l.rstrip("\n") for l in seq_lines[:line]][-3000:]})
